@@ -537,6 +537,7 @@ int main(int argc, char *argv[])
 		for (p = strtok_r(copy, " ", &save); p; p = strtok_r(NULL, " ", &save))
 			tok[ntok++] = p;
 
+		printf("CASE\n");
 		if (!strcmp(tok[0], "lf") && ntok >= 6)
 			case_lf(tok, ntok);
 		else if (!strcmp(tok[0], "sv") && ntok >= 5)
